@@ -38,8 +38,6 @@ impl PartialOrdSpecImpl for Instant {
         Some(if self.t@ < o.t@ { Ordering::Less } else if self.t@ == o.t@ { Ordering::Equal } else { Ordering::Greater })
     }
 }
-pub assume_specification<T> [bool::then_some::<T>] (b: bool, t: T) -> (r: Option<T>)
-    ensures r == (if b { Some(t) } else { None::<T> });
 
 pub type RuntimeResult<T> = Result<T, RuntimeViolation>;
 /// what `self.stats.borrow()` gives access to
@@ -50,6 +48,8 @@ impl StatsCell {
     pub fn borrow(&self) -> (r: &StatsRef) ensures *r == self.s { &self.s }
 }
 pub struct Runtime { pub stats: StatsCell }
+
+// @@INCLUDE stdx@@
 
 // @@EXTRACTED@@
 
